@@ -520,9 +520,10 @@ func init() {
 	register(&Prop{
 		ID: "C18", Gen: genC18, Exec: execC18,
 		Nontrivial: func(p Plan, r Result) bool { return true },
-		Rule:      "70% interleave runs: 1-4 observer tasks (1-4 observations each: small values, powers of two and neighbours, 2^63-1, random magnitudes; each followed by IncCounterBy(value) and IncCounter) and a reader task calling the real /metrics handler 0-2 times; every atomic operation of an observer and every lock operation of package metrics parks and is released by the kernel, so observers and the reader interleave at atomic-operation and lock granularity. Periods are reconstructed from the lock log (an observation belongs to the read that next takes the histogram's write lock). Per read: count = observations of the period, kept consistent, average, min and max equal, every percentile within [min,max] and one of the period's observations; counters equal the sum / number of increments. 20% bulk runs (no yields): 1..40 or {1,2,3,32767,32768,32769} (thorough also 65536, 65537, 100000) observations per period, several periods, three value distributions. 10% supplementary pure-input sweep (not simulation): bucket index read back through the bhist_* counters is non-decreasing in the value and its upper bound, from a table regenerated from the published Spectator algorithm, is >= the value. Not claimed: asm vs portable bit count; literal data-race freedom. Distinct = distinct plan hash",
-		Real:      []string{"metrics (counters, histograms, bucket histograms, /metrics endpoint via http.DefaultServeMux)"},
-		Stub:      []string{"sync/atomic and sync.RWMutex of package metrics (yield points owned by the kernel)", "observer and reader tasks", "HTTP transport (httptest.ResponseRecorder)"},
-		RunsQuick: 2500, RunsThorough: 40000, Chunk: 300,
+		Rule:       "70% interleave runs: 1-4 observer tasks (1-4 observations each: small values, powers of two and neighbours, 2^63-1, random magnitudes; each followed by IncCounterBy(value) and IncCounter) and a reader task calling the real /metrics handler 0-2 times; every atomic operation of an observer and every lock operation of package metrics parks and is released by the kernel, so observers and the reader interleave at atomic-operation and lock granularity. Periods are reconstructed from the lock log (an observation belongs to the read that next takes the histogram's write lock). Per read: count = observations of the period, kept consistent, average, min and max equal, every percentile within [min,max] and one of the period's observations; counters equal the sum / number of increments. 20% bulk runs (no yields): 1..40 or {1,2,3,32767,32768,32769} (thorough also 65536, 65537, 100000) observations per period, several periods, three value distributions. 10% supplementary pure-input sweep (not simulation): bucket index read back through the bhist_* counters is non-decreasing in the value and its upper bound, from a table regenerated from the published Spectator algorithm, is >= the value. Not claimed: asm vs portable bit count; literal data-race freedom. Distinct = distinct plan hash",
+		Real:       []string{"metrics (counters, histograms, bucket histograms, /metrics endpoint via http.DefaultServeMux)"},
+		Stub:       []string{"sync/atomic and sync.RWMutex of package metrics (yield points owned by the kernel)", "observer and reader tasks", "HTTP transport (httptest.ResponseRecorder)"},
+		RaceTest:   "TestRaceMetrics",
+		RunsQuick:  2500, RunsThorough: 40000, Chunk: 300,
 	})
 }
